@@ -25,8 +25,8 @@ type Node struct {
 	T      thrift.TType `json:"t"`
 	B      bool         `json:"b,omitempty"`
 	I      int64        `json:"i,omitempty"`
-	DB     uint64       `json:"d,omitempty"` // DOUBLE, as IEEE-754 bits (JSON cannot carry Inf)
-	S      []byte       `json:"s,omitempty"` // STRING (string or binary)
+	DB     uint64       `json:"d,omitempty"`   // DOUBLE, as IEEE-754 bits (JSON cannot carry Inf)
+	S      []byte       `json:"s,omitempty"`   // STRING (string or binary)
 	Bin    bool         `json:"bin,omitempty"` // STRING that the IDL declares as binary (matters for the JSON protocol: base64)
 	Fields []FieldNode  `json:"f,omitempty"`
 	ET     thrift.TType `json:"et,omitempty"` // LIST / SET element type
